@@ -11,7 +11,7 @@ SURF_PROP = {
     "components": [
         {"c": "rx", "quick": {"n": 2500, "exhaustive": True}, "thorough": {"n": 30000, "exhaustive": True, "seeds": 4}},
     ],
-    "extra": [steps_C12.rx_monitor],
+    "extra": [steps_C12.rx_monitor, steps_C12.conc_race],
     "trusted_base": [
         "receive-surface models lean/Gnmi/Model/RecvSurfaces.lean (Subscribe handler, client/gnmi Recv/defaultRecv/noti + "
         "value.ToScalar, CacheClient.defaultHandler over the ctree model of C09, cli.QueryDisplay handlers/displayWalk/"
